@@ -2,9 +2,10 @@ import Driver.OpsBits
 import Driver.OpsPackets
 import Driver.OpsXtce
 import Driver.OpsCli
+import Driver.OpsCopy
 namespace Driver
 
-def handlers : List (String → List SExp → Option String) := [opsBits, opsPackets, opsXtce, opsCli]
+def handlers : List (String → List SExp → Option String) := [opsBits, opsPackets, opsXtce, opsCli, opsCopy]
 
 def respond (line : String) : String :=
   match parseLine line with
